@@ -21,7 +21,7 @@ import (
 // ---- replayable description of a helper scenario ------------------------------------------------
 
 type mutSpec struct {
-	Op   string   `json:"op"` // noop | fail | settd | addfin | remfin | setspec | setlabel | seq
+	Op   string   `json:"op"` // noop | fail | settd | addfin | remfin | setspec | setlabel | bump | seq
 	Fins []string `json:"fins,omitempty"`
 	K    string   `json:"k,omitempty"`
 	V    string   `json:"v,omitempty"`
@@ -48,6 +48,10 @@ func (m mutSpec) apply(r resource.Resource) error {
 		r.(*Res).SetPayload(m.V) //nolint:forcetypeassert
 	case "setlabel":
 		r.Metadata().Labels().Set(m.K, m.V)
+	case "bump":
+		// not idempotent: "" -> "c0", otherwise the second byte + 1 (Helpers.MBump)
+		rr := r.(*Res) //nolint:forcetypeassert
+		rr.SetPayload(bumpPayload(rr.Payload()))
 	case "seq":
 		if err := m.A.apply(r); err != nil {
 			return err
@@ -84,11 +88,66 @@ func (m mutSpec) coq() string {
 		return "(MSetSpec " + coqAtom(m.V) + ")"
 	case "setlabel":
 		return fmt.Sprintf("(MSetLabel %s %s)", coqAtom(m.K), coqAtom(m.V))
+	case "bump":
+		return "MBump"
 	case "seq":
 		return fmt.Sprintf("(MSeq %s %s)", m.A.coq(), m.B.coq())
 	}
 
 	panic("bad mutator")
+}
+
+func bumpPayload(p string) string {
+	if p == "" {
+		return "c0"
+	}
+
+	b := []byte(p)
+	for len(b) < 2 {
+		b = append(b, 0)
+	}
+
+	b[1]++
+
+	return string(b)
+}
+
+// bumpCount is the number of bumps a payload shows: "pN" (created as p0) -> N, "cN" (created by Modify from nothing) -> N+1.
+func bumpCount(p string) (int, bool) {
+	if len(p) != 2 {
+		return 0, false
+	}
+
+	switch p[0] {
+	case 'p':
+		return int(p[1]) - '0', true
+	case 'c':
+		return int(p[1]) - '0' + 1, true
+	}
+
+	return 0, false
+}
+
+func (m mutSpec) setsTD() bool {
+	switch m.Op {
+	case "settd":
+		return true
+	case "seq":
+		return m.A.setsTD() || m.B.setsTD()
+	}
+
+	return false
+}
+
+func (m mutSpec) setsSpec() bool {
+	switch m.Op {
+	case "setspec":
+		return true
+	case "seq":
+		return m.A.setsSpec() || m.B.setsSpec()
+	}
+
+	return false
 }
 
 type hCall struct {
@@ -173,6 +232,7 @@ func (c hCall) coq() string {
 type helperResult struct {
 	done bool
 	coq  string
+	res  resource.Resource // uwc / modify: the returned object
 }
 
 func errToOres(err error) string {
@@ -207,7 +267,10 @@ func runHelperCase(t *testing.T, hc hCase) (coq string, problems []string, flags
 			tctx := withTid(ctx, i)
 
 			go func() {
-				var out string
+				var (
+					out string
+					ret resource.Resource
+				)
 
 				uopts := func() []state.UpdateOption {
 					opts := []state.UpdateOption{state.WithUpdateOwner(c.Owner)}
@@ -231,6 +294,7 @@ func runHelperCase(t *testing.T, hc hCase) (coq string, problems []string, flags
 						out = errToOres(err)
 					} else {
 						out = "(OrOk " + coqRes(r, t0) + ")"
+						ret = r
 					}
 				case "modify":
 					r, err := st.ModifyWithResult(tctx, newRes("n1", "T", c.ID, "e0"), c.Mut.apply, uopts()...)
@@ -238,6 +302,7 @@ func runHelperCase(t *testing.T, hc hCase) (coq string, problems []string, flags
 						out = errToOres(err)
 					} else {
 						out = "(OrOk " + coqRes(r, t0) + ")"
+						ret = r
 					}
 				case "teardown":
 					ready, err := st.Teardown(tctx, ptr(c.ID), state.WithTeardownOwner(c.Owner))
@@ -317,7 +382,7 @@ func runHelperCase(t *testing.T, hc hCase) (coq string, problems []string, flags
 				}
 
 				mu.Lock()
-				results[i] = helperResult{done: true, coq: out}
+				results[i] = helperResult{done: true, coq: out, res: ret}
 				mu.Unlock()
 			}()
 		}
@@ -385,6 +450,14 @@ func runHelperCase(t *testing.T, hc hCase) (coq string, problems []string, flags
 				}
 
 				synctest.Wait()
+
+				// the monitors need the total order of committed values: note what the store holds after an environment step
+				if cur, err := inner.Get(ctx, ptr(e.ID)); err == nil {
+					gate.record(gateLogEntry{Tid: -1, Kind: "update", Res: cur})
+				} else {
+					gate.record(gateLogEntry{Tid: -1, Kind: "destroy", Ptr: ptr(e.ID)})
+				}
+
 				steps = append(steps, fmt.Sprintf("(CEnv %s %s, ONone)", coqZ(now), cop))
 				flags["env:"+e.Kind] = true
 
@@ -486,6 +559,60 @@ func helperMonitors(ctx context.Context, inner state.CoreState, gate *gateState,
 		}
 
 		failed := strings.HasPrefix(r.coq, "(OrErr")
+
+		// C04, on the committed-write log: a successful non-idempotent mutation is applied exactly once on top of the
+		// then-current value, the returned object is the committed one, and a call expecting phase running never
+		// reports success with a tearing-down object it did not tear down itself
+		if (c.Kind == "uwc" || c.Kind == "modify") && !failed {
+			var prev, mine resource.Resource
+
+			for _, e := range log {
+				if e.Err != nil {
+					continue
+				}
+
+				switch e.Kind {
+				case "update", "create":
+					if e.Res.Metadata().ID() != c.ID {
+						continue
+					}
+
+					if e.Tid == i {
+						mine = e.Res
+
+						if c.Mut.Op == "bump" {
+							base := "e0"
+							if prev != nil {
+								base = payloadOf(prev)
+							}
+
+							if got := payloadOf(e.Res); got != bumpPayload(base) {
+								problems = append(problems, fmt.Sprintf("applied-twice: %s call %d reported success; its non-idempotent mutation committed %q on top of %q (expected %q)", c.Kind, i, got, base, bumpPayload(base)))
+							}
+						}
+					}
+
+					prev = e.Res
+				case "destroy":
+					if e.Ptr.ID() == c.ID {
+						prev = nil
+					}
+				}
+			}
+
+			if c.Mut.Op == "bump" && mine == nil {
+				problems = append(problems, fmt.Sprintf("lost-mutation: %s call %d reported success for a non-idempotent mutation but committed no write", c.Kind, i))
+			}
+
+			if mine != nil && r.res != nil && (payloadOf(mine) != payloadOf(r.res) || !mine.Metadata().Version().Equal(r.res.Metadata().Version())) {
+				problems = append(problems, fmt.Sprintf("returned-object: %s call %d committed %s/%q but returned %s/%q", c.Kind, i,
+					mine.Metadata().Version(), payloadOf(mine), r.res.Metadata().Version(), payloadOf(r.res)))
+			}
+
+			if (c.Exp == "" || c.Exp == "running") && r.res != nil && r.res.Metadata().Phase() == resource.PhaseTearingDown && !c.Mut.setsTD() {
+				problems = append(problems, fmt.Sprintf("phase-into-success: %s call %d expects phase running, reported success and returned a tearing-down object", c.Kind, i))
+			}
+		}
 
 		switch c.Kind {
 		case "uwc", "addfin", "remfin", "modify", "teardown":
@@ -606,7 +733,7 @@ func genHelperCases(r *rng, prop string) []hCase {
 	case "C04":
 		muts := []mutSpec{
 			{Op: "noop"}, {Op: "fail"}, {Op: "setspec", V: "p1"}, {Op: "setspec", V: "p2"}, {Op: "setlabel", K: "l0", V: "v1"},
-			{Op: "addfin", Fins: []string{"f2"}}, {Op: "remfin", Fins: []string{"f1"}}, {Op: "settd"},
+			{Op: "addfin", Fins: []string{"f2"}}, {Op: "remfin", Fins: []string{"f1"}}, {Op: "settd"}, {Op: "bump"}, {Op: "bump"},
 			{Op: "seq", A: &mutSpec{Op: "setspec", V: "p3"}, B: &mutSpec{Op: "setlabel", K: "l1", V: "v0"}},
 		}
 		owners := []string{"", "", "o1"}
